@@ -172,7 +172,7 @@ func (c *converter) ProgramEnd() error {
 			`set "_i=0"`,
 			c.callFuncString(sliceLenGetHelper, []string{}, "%2"),
 			":_sch_loop",
-			`if "!_i!" lss "!_len!" (`,
+			`if !_i! lss !_len! (`, // Unquoted to compare the counters as numbers (quoted they are compared as strings: "9" lss "10" is false).
 			`for /f "delims=" %%i in ("%2_!_i!") do set "_v=!%%i!"`,
 			c.sliceAssignmentString("!%1!", "!_i!", "!_v!", false),
 			`set /A "_i=!_i!+1"`,
@@ -195,11 +195,12 @@ func (c *converter) ProgramEnd() error {
 			c.callFuncString(sliceLenGetHelper, []string{}, "!%1!"), // Get current slice length.
 			`set "_i=!_len!"`,
 			":_sah_loop",
-			`if "!_i!" lss "%2" (`,
+			`if !_i! lss %2 (`, // Unquoted to compare the counters as numbers (quoted they are compared as strings: "9" lss "10" is false).
 			c.sliceAssignmentString("!%1!", "!_i!", "%3", false),
 			`set /A "_i=!_i!+1"`,
 			"goto :_sah_loop",
-			") else (",
+			")",
+			`if !_i! equ %2 (`, // Only extend the slice if the index is not within the current length.
 			`set /A "_len=%2+1"`,
 			c.callFuncString(sliceLenSetHelper, []string{}, "!%1!", "!_len!"),
 			")",
